@@ -214,7 +214,8 @@ def infl_cov(rule, expl):
              "mutants_still_valid_and_accepted": int(st.get("mutants_still_valid_and_accepted", 0)),
              "rejected_by_isal_but_only_the_lenient_reference_accepts": int(st.get("rejected_but_reference_lenient", 0)),
              "trailer_straddling_histories": int(st.get("trailer_straddling_histories", 0)), "need_dict_flows": int(st.get("need_dict_flows", 0)),
-             "valid_streams_followed_by_foreign_bytes": int(st.get("valid_streams_followed_by_foreign_bytes", 0)), "stateless_retries_on_the_same_struct_after_overflow": int(st.get("stateless_retries_on_the_same_struct_after_overflow", 0))}
+             "valid_streams_followed_by_foreign_bytes": int(st.get("valid_streams_followed_by_foreign_bytes", 0)), "stateless_retries_on_the_same_struct_after_overflow": int(st.get("stateless_retries_on_the_same_struct_after_overflow", 0)),
+             "generated_blocks_carrying_the_library_default_header_with_foreign_tokens": int(st.get("generated_blocks_carrying_the_library_default_header_with_foreign_tokens", 0))}
         for k in ("systematic_header_flip_streams", "stream_source", "decodes_per_mode", "return_codes", "resume_block_states", "faults_detected", "faults_with_documented_class", "block_type_pairs", "flip_region", "systematic_split_streams"):
             if k in agg.cnts:
                 c[k] = dict(sorted(agg.cnts[k].items()))
@@ -459,7 +460,7 @@ PROPS = {
         coverage=infl_cov(
             "valid streams from three sources: the deflate grammar generator (stored/fixed/dynamic blocks in any order, random complete prefix codes up to depth 15 incl. forced deep and skewed codes, single-code and empty alphabets, 16-after-zero-run code-length encodings, all length/distance symbols incl. distance 32768, overlapping copies, long literal runs), zlib (levels 0-9, 5 strategies, window 9..15, random flushes, dictionaries) and ISA-L itself; gzip headers with random optional fields, zlib headers; each decoded in every applicable wrapper mode stateless (ample / exact / too small output) and streaming (one call, random schedule with fresh guard-page mappings, split inside the trailer) under the CPU levels that select each decode kernel; distinct by hash of the stream",
             "expected bytes come from the generator's token list (no decoder involved) and are re-confirmed by the reference decoder (a disagreement there is a harness failure); ISA-L must finish with ISAL_DECOMP_OK/ISAL_BLOCK_FINISH, identical bytes, end position = bytes taken - read_in_length/8 equal to the true end, state->crc equal to the reference checksum; reduced-window builds decode their own output"),
-        floors=infl_floor(3000, lambda ctx, agg: (["fewer than 300 streams with 13-15 bit codes"] if agg.stats.get("streams_with_codes_13plus", 0) < 300 else []) + (["block type pairs seen: %d of 9" % len(agg.cnts.get("block_type_pairs", {}))] if len(agg.cnts.get("block_type_pairs", {})) < 9 else []) + (["wrapper modes: %d of 7" % len(agg.cnts.get("decodes_per_mode", {}))] if len(agg.cnts.get("decodes_per_mode", {})) < 7 else [])),
+        floors=infl_floor(3000, lambda ctx, agg: (["fewer than 300 streams with 13-15 bit codes"] if agg.stats.get("streams_with_codes_13plus", 0) < 300 else []) + (["block type pairs seen: %d of 9" % len(agg.cnts.get("block_type_pairs", {}))] if len(agg.cnts.get("block_type_pairs", {})) < 9 else []) + (["wrapper modes: %d of 7" % len(agg.cnts.get("decodes_per_mode", {}))] if len(agg.cnts.get("decodes_per_mode", {})) < 7 else []) + (["fewer than 100 blocks with the library's default header and foreign tokens"] if agg.stats.get("generated_blocks_carrying_the_library_default_header_with_foreign_tokens", 0) < 100 else [])),
         assumptions=["inflate_state at malloc-grade alignment; data buffers arbitrary", "generator emits only grammatically valid streams (checked against the reference decoder and, in setup, zlib)"],
     ),
     "C06": dict(
